@@ -24,20 +24,21 @@ open Cluster
 /-! ### task records: work and planned duration of ingest tasks are kept -/
 
 /-- every record of `ts'` with the id of an ingest task stands for a record of `ts` with the same
-id, the same work, and — when it carries no work — the same planned duration -/
+id, the same work, the same recorded finish (F13), and — when it carries no work — the same planned
+duration -/
 def IlTaskK (ts ts' : List TaskRec) : Prop :=
   ∀ r' ∈ ts', r'.id.isIngest = true →
     ∃ r ∈ ts, r'.id = r.id ∧ r'.flops = r.flops ∧ r'.data = r.data ∧
-      (r.flops = 0 → r.data = 0 → r'.duration = r.duration)
+      (r.flops = 0 → r.data = 0 → r'.duration = r.duration) ∧ r'.aft = r.aft
 
 theorem IlTaskK.refl (ts : List TaskRec) : IlTaskK ts ts :=
-  fun r hr _ => ⟨r, hr, rfl, rfl, rfl, fun _ _ => rfl⟩
+  fun r hr _ => ⟨r, hr, rfl, rfl, rfl, fun _ _ => rfl, rfl⟩
 
 theorem IlTaskK.trans {a b c : List TaskRec} (h1 : IlTaskK a b) (h2 : IlTaskK b c) : IlTaskK a c := by
   intro r'' hr'' hi
-  obtain ⟨r', hr', e1, e2, e3, e4⟩ := h2 r'' hr'' hi
-  obtain ⟨r, hr, f1, f2, f3, f4⟩ := h1 r' hr' (e1 ▸ hi)
-  refine ⟨r, hr, e1.trans f1, e2.trans f2, e3.trans f3, fun h0 h0' => ?_⟩
+  obtain ⟨r', hr', e1, e2, e3, e4, e5⟩ := h2 r'' hr'' hi
+  obtain ⟨r, hr, f1, f2, f3, f4, f5⟩ := h1 r' hr' (e1 ▸ hi)
+  refine ⟨r, hr, e1.trans f1, e2.trans f2, e3.trans f3, fun h0 h0' => ?_, e5.trans f5⟩
   rw [e4 (f2 ▸ h0) (f3 ▸ h0'), f4 h0 h0']
 
 theorem IlTaskK.of_eq {a b : List TaskRec} (h : b = a) : IlTaskK a b := by subst h; exact IlTaskK.refl _
@@ -45,7 +46,7 @@ theorem IlTaskK.of_eq {a b : List TaskRec} (h : b = a) : IlTaskK a b := by subst
 /-- a record update that keeps id and work, and the planned duration of a record without work -/
 def IlKeepT (f : TaskRec → TaskRec) : Prop :=
   ∀ r, (f r).id = r.id ∧ (f r).flops = r.flops ∧ (f r).data = r.data ∧
-    (r.flops = 0 → r.data = 0 → (f r).duration = r.duration)
+    (r.flops = 0 → r.data = 0 → (f r).duration = r.duration) ∧ (f r).aft = r.aft
 
 theorem IlTaskK.updTask (s : Sys) (t : Tid) (f : TaskRec → TaskRec) (hf : IlKeepT f) :
     IlTaskK s.tasks (s.updTask t f).tasks := by
@@ -55,13 +56,13 @@ theorem IlTaskK.updTask (s : Sys) (t : Tid) (f : TaskRec → TaskRec) (hf : IlKe
   refine ⟨r, hr, ?_⟩
   split
   · exact hf r
-  · exact ⟨rfl, rfl, rfl, fun _ _ => rfl⟩
+  · exact ⟨rfl, rfl, rfl, fun _ _ => rfl, rfl⟩
 
 theorem IlTaskK.append (ts recs : List TaskRec) (h : ∀ r ∈ recs, r.id.isIngest = false) :
     IlTaskK ts (ts ++ recs) := by
   intro r' hr' hi
   rcases List.mem_append.mp hr' with hr' | hr'
-  · exact ⟨r', hr', rfl, rfl, rfl, fun _ _ => rfl⟩
+  · exact ⟨r', hr', rfl, rfl, rfl, fun _ _ => rfl, rfl⟩
   · rw [h r' hr'] at hi; exact absurd hi (by simp)
 
 theorem il_keepT_updateAllocation (mm : Machine) : IlKeepT (fun r => updateAllocation r mm) := by
@@ -70,11 +71,11 @@ theorem il_keepT_updateAllocation (mm : Machine) : IlKeepT (fun r => updateAlloc
   simp only
   split
   · rename_i hgt
-    refine ⟨rfl, rfl, rfl, fun h0 h0' => ?_⟩
+    refine ⟨rfl, rfl, rfl, fun h0 h0' => ?_, rfl⟩
     exfalso
     rw [h0, h0'] at hgt
     simp at hgt
-  · exact ⟨rfl, rfl, rfl, fun _ _ => rfl⟩
+  · exact ⟨rfl, rfl, rfl, fun _ _ => rfl, rfl⟩
 
 /-! ### steps the timing invariant does not see -/
 
@@ -287,7 +288,7 @@ theorem processOne_iltq (now : Time) (oid : Oid) (st : PcsSt) (t : Tid) :
                 · rw [if_neg hst]
                   refine h1.trans ((ILTQ.spawn s1 (.allocTask t m
                     (crossPreds (dictSet st.pairs t m) r.preds m) (some oid) false 0) now rfl).trans ?_)
-                  exact ILTQ.updTask _ _ _ (fun r => ⟨rfl, rfl, rfl, fun _ _ => rfl⟩)
+                  exact ILTQ.updTask _ _ _ (fun r => ⟨rfl, rfl, rfl, fun _ _ => rfl, rfl⟩)
 
 theorem processCurrentSchedule_iltq (s : Sys) (now : Time) (oid : Oid)
     (schedule pairs : List (Tid × Mid)) : ILTQ s (processCurrentSchedule s now oid schedule pairs).s := by
@@ -363,7 +364,7 @@ theorem allocTasksBlock_iltq (s : Sys) (now : Time) (orc : Oracle) (hpre : s.alg
         refine h1.trans ?_
         apply foldl_iltq
         intro s t
-        exact ILTQ.updTask _ _ _ (fun r => ⟨rfl, rfl, rfl, fun _ _ => rfl⟩)
+        exact ILTQ.updTask _ _ _ (fun r => ⟨rfl, rfl, rfl, fun _ _ => rfl, rfl⟩)
       · intro ho
         apply hpre
         rw [← halg1, ← ho]
